@@ -33,6 +33,9 @@ CLAIMED = {
  'C09': dict(cat='exploration', ref='5/C09', tech='deterministic simulation (seeded baton scheduler invisible to ThreadSanitizer) of UCI sessions with 2..8 threads and of the proof-game filter worker pool in a TSan build; ThreadSanitizer happens-before analysis is the invariant',
       text='Short sessions with Threads 2..8, searches started/stopped/pondered, options changed between and during searches, ucinewgame, Clear Hash on >16 MB tables (thread pool), quit during search, under seeded schedules; plus ProofGameFilter with 2..16 workers whose output must also equal the one-worker output. Any ThreadSanitizer report is a violation whose seed replays the same schedule.',
       note='The scheduler TU is not TSan-instrumented and hands over with raw futexes, so it adds no happens-before edges; harness-namespace frames (sess::, vsim::, ...) are suppressed, repository code never is. Detection power = TSan happens-before analysis on the sampled schedules (a race hidden behind an incidental lock edge in one schedule is found in another).'),
+ 'C17': dict(cat='exploration', ref='5/C17', tech=SIM + 'stdin transport faults (flipped/inserted/deleted bytes, truncated, merged and duplicated lines, 4 KiB garbage lines, bytes >= 0x80 and NUL, damaged numbers, squares and tokens) on otherwise valid UCI sessions in the ASan/UBSan flavour; PGN read through stream buffers with 1..k-byte refills and through truncated/corrupted streams',
+      text='ONLY the stream-facing half of C17 (its second sentence) is decided here: corrupted UCI command lines and PGN streams are parsed or rejected without crash, hang or sanitizer report; the session contract (readyok/bestmove counting for the commands as delivered, clean exit) still holds; a well-formed PGN delivered in arbitrarily short reads parses to an equal tree; truncated/corrupted PGN streams return or throw ChessParseError. The round-trip half (move text and PGN round-trips for every position and move) is a pure function of its input and is NOT decided by this check.',
+      note='Corruptions are generated from valid sessions (mutation-based), so deeply nested parser states are reached; uniformly random byte strings as FEN/move text via the API are outside this check.'),
  'C18': dict(cat='exploration', ref='5/C18', tech='simulated file layer with fault injection (truncation at any byte, byte/bit flips, zeroed blocks, swapped/reversed records, empty/odd-length/garbage/missing file, replacement between probes and between searches) under the real Book class and under UCI sessions with OwnBook; reference polyglot encoder/decoder as oracle',
       text='Polyglot books are generated from random lines (duplicates, zero weights, castling in king-takes-rook encoding, promotions, noise records), written to a per-run file and damaged by the fault plan; every probe of every position along and off the lines must return no move or a legal move (ASan/UBSan flavour: no memory error); with the well-formed file returned moves must be stored under the position key, every stored move must be listed, zero-weight moves are not drawn; in sessions the bestmove is legal whether it came from the book or from the search while the file is damaged, removed or restored between searches.',
       note='Polyglot key computation is taken from the repo (covered by PolyglotTest vectors); move encoding/decoding is re-implemented in the harness. Dynamic I/O errors (EIO/short read in the middle of one probe) are not injected; content faults and replacement between probes are.'),
@@ -50,7 +53,7 @@ NA = {
  'C20': 'The constraint solver is a pure function of the constraint system (DESIGN.md section 6).',
 }
 PENDING = {}
-for pid in ['C04', 'C17', 'C19']:
+for pid in ['C04', 'C19']:
     PENDING[pid] = 'check designed (DESIGN.md section 5) but not yet built/gated in this tree; not claimed until it passes its determinism and sensitivity gates'
 
 def main():
